@@ -3,6 +3,7 @@
 package config
 
 import (
+	"bytes"
 	"encoding/json"
 	"math/rand"
 	"os"
@@ -70,6 +71,30 @@ func verifC11(t *testing.T) {
 		}
 	}
 	rec([]byte{}, in.MaxLen)
+	// every byte string of length <= 2 over ALL 256 byte values, and every string of length 3 with one arbitrary byte (any
+	// position) and the other two from the alphabet: bytes >= 0x80, control characters, punctuation
+	for a := 0; a < 256; a++ {
+		if !bytes.ContainsRune(alpha, rune(a)) || a >= 0x80 {
+			try(string([]byte{byte(a)}))
+		}
+		for b := 0; b < 256; b++ {
+			if a >= 0x80 || b >= 0x80 || !bytes.Contains(alpha, []byte{byte(a)}) || !bytes.Contains(alpha, []byte{byte(b)}) {
+				try(string([]byte{byte(a), byte(b)}))
+			}
+		}
+	}
+	for x := 0; x < 256; x++ {
+		if x < 0x80 && bytes.Contains(alpha, []byte{byte(x)}) {
+			continue
+		}
+		for _, c := range alpha {
+			for _, d := range alpha {
+				try(string([]byte{byte(x), c, d}))
+				try(string([]byte{c, byte(x), d}))
+				try(string([]byte{c, d, byte(x)}))
+			}
+		}
+	}
 	rng := rand.New(rand.NewSource(in.Seed))
 	for i := 0; i < in.Len4Count; i++ {
 		b := make([]byte, in.MaxLen+1)
